@@ -10,7 +10,7 @@ ID = "C19"
 OPT_QUICK_ALL = True      # every partition also in a child interpreter started with -O
 LEVEL = "exploration"
 TECHNIQUE = "complete enumeration of the 4 binding-presence combinations (one fresh interpreter each) x every module import x every command class x every device-string/mode/initiator call of the three factories, file opens observed by a sys.addaudithook recorder and connections by the stand-in Context"
-RULE = ("9 combinations of {not installed, present, installed but unloadable (import raises a plain ImportError)} for (sgio, iscsi) x 4 orders of the factory calls (and, for the 4 classic combinations, 6 unusual host names: 64 characters, empty label, non-ASCII, empty, format characters, long FQDN) (as listed, reversed, explicit-names-first, interleaved), each in its own subprocess: import of every module under pyscsi; construction + CDB encode/decode "
+RULE = ("9 combinations of {not installed, present, installed but unloadable (import raises a plain ImportError)} for (sgio, iscsi) x 4 orders of the factory calls (plus 2 orders in a process that has imported nothing but the package: factories first, unhandled strings first) (and, for the 4 classic combinations, 6 unusual host names: 64 characters, empty label, non-ASCII, empty, format characters, long FQDN) (as listed, reversed, explicit-names-first, interleaved), each in its own subprocess: import of every module under pyscsi; construction + CDB encode/decode "
         "of each of the 42 command classes; the facade over a plain recording object; init_device / SCSIDevice / ISCSIDevice x 25 device strings "
         "(existing node, directories, absent node, seven well-formed iSCSI URLs incl. user%password@ credentials, IPv6 portal and mixed case, near-miss prefixes in both families, empty, relative, upper-case) x "
         "read-only/read-write x explicit/default initiator name. Non-trivial = at least one binding missing or a device string that is not the "
@@ -28,6 +28,8 @@ def partitions(tier):
     parts = [[s, i, o] for s in (0, 1, 2) for i in (0, 1, 2) for o in range(4)]
     # host names other than the machine's own (64 characters, empty label, non-ASCII, empty, format characters, long FQDN)
     parts += [[s, i, 0, h] for s in (0, 1) for i in (0, 1) for h in range(1, 7)]
+    # orders 4 / 5: a process that has imported only the package goes straight to the factories (unhandled strings first / as listed)
+    parts += [[s, i, o] for s in (0, 1, 2) for i in (0, 1, 2) for o in (4, 5)]
     return parts
 
 
